@@ -573,7 +573,7 @@ def bbox(f, as_slice=False):
     mh.bbox : the binary version of this function
     '''
     import mahotas._bbox
-    n = f.max()
+    n = int(f.max()) # a Python integer: n+1 must not wrap around in f's dtype
     if f.min() < 0:
         raise ValueError('mahotas.labeled.bbox: labels must be non-negative')
     output = np.empty( f.ndim * 2 * (n+1), np.intp)
